@@ -244,9 +244,9 @@ class SetK(Kind):
     def empty(self):
         return z3.EmptySet(self.elem.sort())
 
-    def define(self, st, body, base="set", sources=()):
+    def define(self, st, body, base="set", sources=(), name=None):
         """Fresh set C with forall x. C[x] == body(x); triggered on C[x] and on membership in the sources."""
-        C = z3.Const(fresh_name(base), self.sort())
+        C = z3.Const(name or fresh_name(base), self.sort())
         x = z3.Const(fresh_name("sx"), self.elem.sort())
         st.assume(z3.ForAll([x], z3.Select(C, x) == body(x), patterns=[z3.Select(C, x)]))
         for src in sources:
@@ -268,7 +268,8 @@ class SetK(Kind):
     def literal(self, st, terms):
         if not terms:
             return self.empty()
-        return self.define(st, lambda x: z3.Or([x == t for t in terms]), "setlit")
+        name = f"setlit!{abs(hash(tuple(t.get_id() for t in terms))) % (10 ** 12)}"
+        return self.define(st, lambda x: z3.Or([x == t for t in terms]), "setlit", name=name)
 
     def subset(self, a, b):
         x = z3.Const(fresh_name("sx"), self.elem.sort())
